@@ -244,6 +244,42 @@ func mutMatrix(args []string) {
 			}
 		}
 	}
+	// a descent directly behind a multi-selecting fragment (see rowsDoc in main.go): the match lies below a LATER selected element only
+	for _, oc := range []bool{false, true} {
+		for _, mf := range multiBeforeDescent() {
+			for ti, tail := range afterDescent() {
+				if ti == 3 || ti == 4 {
+					continue // a wildcard behind the descent selects locations inside one another: outside the store's definition
+				}
+				p := append([]jl.Frag{jl.FRoot(), jl.FChild("rows"), mf, jl.FDesc()}, tail...)
+				for _, cl := range calls(p, allOps, false) {
+					emit(3, rowsDoc(oc), cl)
+				}
+			}
+		}
+	}
+	// scripts on the element itself (true on null / scalar / container elements) as trailing and as inner filter, all operations
+	for _, f := range []jl.Frag{
+		jl.FFilter("eqs", "", jl.Null()), jl.FFilter("nes", "", jl.Null()), jl.FFilter("eqs", "", jl.Int(3)), jl.FFilter("nes", "", jl.Int(3)),
+		jl.FFilter("gts", "", jl.Int(1)), jl.FFilter("nek", "x", jl.Int(1)), jl.FFilter("nek", "x", jl.Int(2)), jl.FFilter("eqnothing", "x", jl.Null()),
+	} {
+		for _, ct := range []cont{{"arr", 1}, {"arr", 3}, {"arr", 5}, {"obj", 1}, {"obj", 4}} {
+			c := &ctr{n: 100}
+			d := mkCont(ct, "scal", c)
+			for _, cl := range calls([]jl.Frag{jl.FRoot(), f}, allOps, false) {
+				emit(2, d, cl)
+			}
+			for _, cl := range calls([]jl.Frag{jl.FRoot(), jl.FChild("p"), f}, []string{"Remove", "RemoveOne", "Modify", "ModifyOne"}, true) {
+				emit(3, jl.Obj("p", d, "q", jl.Int(9999)), cl)
+			}
+			for _, cl := range calls([]jl.Frag{jl.FRoot(), f, jl.FChild("w")}, allOps, false) {
+				emit(2, d, cl)
+			}
+			for _, cl := range calls([]jl.Frag{jl.FRoot(), jl.FNth(0), f, jl.FChild("x")}, allOps, false) {
+				emit(3, jl.Arr(d, jl.Int(77)), cl)
+			}
+		}
+	}
 	// creation along child/index paths, and requests that cannot be served
 	c := &ctr{n: 100}
 	docs := []jl.Node{jl.Obj(), jl.Arr(), jl.Obj("a", jl.Obj("b", jl.Int(1))), jl.Obj("a", jl.Arr(c.next(), c.next())), jl.Obj("a", jl.Int(5)),
